@@ -460,6 +460,11 @@ class RMask:
             def agg(*a, **k):
                 b = z3.Bool(f"{name}!{self.frame.uid}!{abs(hash(self.note)) % 100000}")
                 c = to_z3(self.cond) if not isinstance(self.cond, bool) else z3.BoolVal(self.cond)
+                # decided for EVERY row by the filter conditions alone (no row can satisfy / violate the mask): a definite answer
+                if name == "any" and _valid(z3.Not(z3.And(self.frame.member(), c))):
+                    return False
+                if name == "all" and _valid(z3.Implies(self.frame.member(), c)):
+                    return True
                 if name == "all":
                     interp.run._add(z3.Implies(z3.And(b, self.frame.member()), c))
                 else:
